@@ -2,6 +2,7 @@ from construct.core import ConstructError
 from io import IOBase
 from io import SEEK_END
 from io import SEEK_SET
+import struct
 from typing import List, cast
 
 from smpl_extract.base import ElementTypes
@@ -45,7 +46,9 @@ class AkaiImageParser(Image):
                     _elem_parent=self,
                     _elem_routines=self._routines
                 )  
-            except (InvalidPartition, ConstructError) as e:
+            except (InvalidPartition, ConstructError, struct.error) as e:
+                # (the compiled structs raise struct.error when the image
+                # ends inside a partition header)
                 break
             partitions.append(partition)
             partition_cnt += 1
